@@ -9,6 +9,7 @@ CONSTANTS
   Dyn = FALSE
   WithDC = TRUE
   WithWinch = TRUE
+CONSTANT RelFams <- RelFamsT
 VIEW CoarseView
 ACTION_CONSTRAINT DumpL
 CHECK_DEADLOCK FALSE
